@@ -14,11 +14,13 @@
 (***************************************************************************)
 EXTENDS Naturals, Sequences, FiniteSets
 
-Kinds == {"coroVal", "coroRaise", "plainNone", "plainVal", "plainRaise", "notCallable"}
-IsCoro(k) == k \in {"coroVal", "coroRaise"}
+(* coroWait / coroSlow: coroutines that are still running when the owner's loop is force-stopped (the second one needs several *)
+(* loop iterations of clean-up while being cancelled)                                                                       *)
+Kinds == {"coroVal", "coroRaise", "plainNone", "plainVal", "plainRaise", "notCallable", "coroWait", "coroSlow"}
+IsCoro(k) == k \in {"coroVal", "coroRaise", "coroWait", "coroSlow"}
 
 (* what the body produces when it runs *)
-BodyOutcome(k) == CASE k = "coroVal" -> "val" [] k = "coroRaise" -> "exc" [] k = "plainNone" -> "none"
+BodyOutcome(k) == CASE k \in {"coroVal", "coroWait", "coroSlow"} -> "val" [] k = "coroRaise" -> "exc" [] k = "plainNone" -> "none"
                     [] k = "plainVal" -> "val" [] k = "plainRaise" -> "exc" [] OTHER -> "none"
 
 (* Invoke: the caller's side of proxy.method(...) up to the point where it returns to the caller *)
